@@ -82,3 +82,24 @@ Proof.
   eexists. split; [lazy [find_func find catalogue fd_key String.eqb Ascii.eqb Bool.eqb]; reflexivity|].
   split; [reflexivity|]. split; vm_compute; reflexivity.
 Qed.
+
+(** through [call] (what [eval] does for a call expression after evaluating callee and arguments): binder, exec,
+    return-type check *)
+Theorem frame_call e p s d et data :
+  len s = 6 -> len d = 6 -> et < 65536 ->
+  let r := ROk (VPkt (pkt_of_body (d ++ s ++ be16 et ++ data))) (set_heap (add_trace p "eth::frame") (p_heap p)) in
+  Eval.call catalogue (exec e) p "eth::frame" None [(None, VStr s); (None, VStr d); (Some "ethertype"%string, VU16 et); (None, VStr data)] = r
+  /\ Eval.call catalogue (exec e) p "eth::frame" None [(Some "dst"%string, VStr d); (Some "src"%string, VStr s); (Some "ethertype"%string, VU16 et); (None, VStr data)] = r.
+Proof.
+  intros Hs Hd He. cbv zeta.
+  destruct (frame_binder s d et data) as (f & Hf & Hret & A1 & A2 & _).
+  assert (Ex : exec e "eth::frame" None [VStr s; VStr d; VU16 et] [VStr data] (p_heap p)
+               = Some (Ok (VPkt (pkt_of_body (d ++ s ++ be16 et ++ data)), p_heap p))).
+  { assert (Cu : conv_u16 (VU16 et) = Ok et).
+    { unfold conv_u16, conv_int, omap. cbn [obind]. unfold wrap16. rewrite N.mod_small by exact He. reflexivity. }
+    assert (Cj : join_extra [] [VStr data] = Ok data).
+    { unfold join_extra. cbn [omapM conv_buf obind]. cbn. try rewrite app_nil_r. reflexivity. }
+    exact (frame_exec e (VStr s) (VStr d) (VU16 et) [VStr data] (p_heap p) s d et data eq_refl eq_refl Cu Cj Hs Hd). }
+  split; unfold Eval.call; rewrite Hf; [rewrite A1|rewrite A2]; cbn [lift rbind]; rewrite Ex; cbn [lift rbind val_type p_heap add_trace];
+    rewrite Hret; reflexivity.
+Qed.
